@@ -569,6 +569,7 @@ func minimiseAndWrite(bin, workDir, prop, tier string, seed uint64, r *RunRecord
 	_ = os.WriteFile(path, b, 0o644)
 	// minimise (bounded); the worker rewrites the file on success
 	minOut := filepath.Join(workDir, "min.json")
+	_ = os.Remove(minOut)
 	cmd := exec.Command(bin, "-test.run", "^TestMinimise$", "-test.timeout", "0", "-sim.prop", prop, "-sim.plan", path, "-sim.out", minOut, "-sim.minbudget", "120s")
 	cmd.Dir = verifDir
 	cmd.Env = os.Environ()
